@@ -391,18 +391,21 @@ def recon_checks(ctx, sp, mr, rng):
                 v = w * np.maximum(1 - (lam / rho) / np.maximum(np.abs(w), 1e-300), 0)
                 u = u + Gd @ xr - v
             fref = F(xr)
-            for solver in ("PrimalDualHybridGradient", "ADMM"):
-                ctx.count("recon:TotalVariationRecon:%dD" % len(ish_tv), key=(r, solver, len(ish_tv)),
-                          sample={"ishape": ish_tv, "coils": nc, "lamda": lam, "solver": solver})
+            # the same maps stored channel-LAST and handed over as a channel-first VIEW (equal values, non-contiguous): the operator
+            # blocks then produce non-contiguous outputs wherever the maps' layout propagates
+            mps_view = np.moveaxis(np.ascontiguousarray(np.moveaxis(mps_tv, 0, -1)), -1, 0)
+            for solver, lay in (("PrimalDualHybridGradient", "C"), ("ADMM", "C"), ("PrimalDualHybridGradient", "channel-last view")):
+                ctx.count("recon:TotalVariationRecon:%dD%s" % (len(ish_tv), "" if lay == "C" else ":maps-view"), key=(r, solver, len(ish_tv), lay),
+                          sample={"ishape": ish_tv, "coils": nc, "lamda": lam, "solver": solver, "maps_layout": lay})
                 try:
-                    x = mr.app.TotalVariationRecon(ksp_tv.copy(), mps_tv, lam, solver=solver, max_iter=3000 if solver[0] == "P" else 400,
-                                                   show_pbar=False).run()
+                    x = mr.app.TotalVariationRecon(ksp_tv.copy(), mps_tv if lay == "C" else mps_view, lam, solver=solver,
+                                                   max_iter=3000 if solver[0] == "P" else 400, show_pbar=False).run()
                     fx = F(np.asarray(x).ravel())
                     if not fx <= fref + 3e-3 * (1 + fref):
                         bad.setdefault("tvrecon", ("TotalVariationRecon(%s) on a %d-D image does not reach the minimum of 1/2||Ax-y||^2 + lamda||Gx||_1 "
                                                    "with differences along every image axis (%g vs %g)" % (solver, len(ish_tv), fx, fref),
                                                    {"kind": "oracle", "ishape": ish_tv, "coils": nc, "lamda": lam, "solver": solver,
-                                                    "objective": fx, "reference": fref}))
+                                                    "maps_layout": lay, "objective": fx, "reference": fref}))
                 except Exception as e:
                     bad.setdefault("recon-exception", ("TotalVariationRecon raised %r" % e, {"kind": "impl-exception"}))
     return bad
